@@ -156,6 +156,28 @@ def build_pair(cfg):
         pl = raw[poff:poff + psize]
         return (F.FileStream(parent, sec, list(ca)), F.FileStream(parent, sec, list(cb)), parent,
                 chain_logical(pl, sec, ca), chain_logical(pl, sec, cb), 0, 0)
+    if k == "files2":
+        # the same chain over two DIFFERENT parents holding different bytes at the same addresses (two images in one
+        # process): nothing one view has seen may show up in the other
+        sec, ca, cb = cfg["sector"], cfg["a"], cfg["b"]
+        raw1, raw2 = base_bytes(sec * (max(ca + cb) + 1)), base_bytes(sec * (max(ca + cb) + 1), salt=97)
+        p1, p2 = io.BytesIO(raw1), io.BytesIO(raw2)
+        return (F.FileStream(p1, sec, list(ca)), F.FileStream(p2, sec, list(cb)), p1,
+                chain_logical(raw1, sec, ca), chain_logical(raw2, sec, cb), 0, 0)
+    if k == "mdf2":
+        h, b, f = cfg["hbf"]
+        raw1, raw2 = base_bytes((h + b + f) * cfg["n"]), base_bytes((h + b + f) * cfg["n"], salt=55)
+        p1 = io.BytesIO(raw1)
+        return MDF.MdfStream(p1), MDF.MdfStream(io.BytesIO(raw2)), p1, mdf_logical(raw1, h, b, f), mdf_logical(raw2, h, b, f), 0, 0
+    if k == "file-over-mdf":
+        # a chained file over the raw-sector view, and a second raw-sector view of the same parent: sector addresses of the
+        # two layers coincide numerically (7*i+2 == 4*k) although they live in different address spaces
+        h, b, f = cfg["hbf"]
+        raw = base_bytes((h + b + f) * cfg["n"])
+        p1 = io.BytesIO(raw)
+        lg = mdf_logical(raw, h, b, f)
+        return (F.FileStream(MDF.MdfStream(p1), cfg["sector"], list(cfg["a"])), MDF.MdfStream(p1), p1,
+                chain_logical(lg, cfg["sector"], cfg["a"]), lg, 0, 0)
     if k == "samples":
         # StreamOffset(StreamWrapper(FileStream(partition))) twice -- two AKAI samples of one partition
         sec, poff = cfg["sector"], cfg["poff"]
@@ -201,6 +223,11 @@ def pair_configs():
     out.append({"pair": "rev+fwd", "sector": 4, "chain": [0, 1], "a": [0, 8], "b": [4, 4], "s": 4})
     out.append({"pair": "mdf", "hbf": [2, 4, 1], "n": 3, "a": [0, 8], "b": [4, 8], "s": 4})
     out.append({"pair": "mdf", "hbf": [2, 4, 1], "n": 3, "a": [3, 6], "b": [3, 6], "s": 4})
+    out.append({"pair": "files2", "sector": 4, "a": [1, 0], "b": [1, 0], "s": 4})
+    out.append({"pair": "files2", "sector": 4, "a": [0, 2], "b": [2, 1], "s": 4})
+    out.append({"pair": "mdf2", "hbf": [2, 4, 1], "n": 3, "s": 4})
+    out.append({"pair": "file-over-mdf", "hbf": [2, 4, 1], "n": 6, "sector": 4, "a": [4, 0], "s": 4})
+    out.append({"pair": "file-over-mdf", "hbf": [2, 4, 1], "n": 6, "sector": 4, "a": [0, 4, 2], "s": 4})
     return out
 
 
@@ -218,7 +245,7 @@ def pair_alphabet(cfg, L, quick=True):
 
 
 def cfg_ctx(cfg):
-    if cfg.get("pair") == "mdf":
+    if cfg.get("pair") in ("mdf", "mdf2", "file-over-mdf"):
         return MdfConsts(*cfg["hbf"])
     if "pair" in cfg:
         import contextlib
@@ -382,8 +409,8 @@ class Check(CheckBase):
             "un-deduplicated op sequences to depth d (quick 2 / thorough 3) on fresh objects; every edge "
             "compared with a bytes-slice reference; raw-sector (MDF) view additionally for EVERY sector count 1..159 (thorough "
             "..639) x ragged tail {0,100} with the real constants and 1..63 x tail 0..6 with tiny ones, each under a fixed "
-            "probe program (size, whole content, reads across the first / middle / last sector boundaries); 22 configurations of TWO "
-            "views over one shared parent (two windows, wrapper + window, two chained files of one partition window, the same file "
+            "probe program (size, whole content, reads across the first / middle / last sector boundaries); 27 configurations of TWO "
+            "views over one shared parent, over two parents with different bytes at the same addresses, or one over the other (two windows, wrapper + window, two chained files of one partition window, the same file "
             "twice, two nested sample stacks, reversed + forward window over one chained file, two windows over one raw-sector view): "
             "BFS over the union of both views' alphabets plus direct seeks / reads on the shared parent, product state, to depth 3 "
             "with a 10-operation alphabet per view (quick) / to fixed point with the full alphabet (thorough), every view checked against its own reference; non-trivial = state with cursor on a sector boundary "
